@@ -1,36 +1,10 @@
 import OrsoVerif.Model.PyVal
-import OrsoVerif.Model.Frame
-/-! Driver glue for C03: evaluate a program of DataFrame operators on the list model. -/
+import OrsoVerif.Model.FrameProg
+/-! Driver glue for C03: decode a program of DataFrame operators, evaluate it with the list
+specification (`specEval`) and with the state machine of the implementation (`implEval`), encode
+both register files.  All semantics live in `Model/FrameProg.lean`. -/
 namespace Drv.C03
 open Frame
-
-structure F where
-  names : List String
-  typed : Bool
-  rows : List (List PyVal)
-
-inductive Res where
-  | frame (f : F)
-  | val (v : PyVal)
-  | err (cls : String)
-
-def encodeRes : Res → PyVal
-  | .frame f => .list [.str "frame", .list (f.names.map .str), .list (f.rows.map .list)]
-  | .val v => .list [.str "val", v]
-  | .err c => .list [.str "err", .str c]
-
-def getFrame (rs : List Res) (i : Int) : Option F :=
-  if i < 0 then none else
-  match rs[i.toNat]? with
-  | some (.frame f) => some f
-  | _ => none
-
-def decodePred : PyVal → Option (List PyVal → Bool)
-  | .list [.str "true"] => some fun _ => true
-  | .list [.str "false"] => some fun _ => false
-  | .list [.str "eq", .int j, v] => if j < 0 then none else some fun r => decide (r[j.toNat]? = some v)
-  | .list [.str "ne", .int j, v] => if j < 0 then none else some fun r => !decide (r[j.toNat]? = some v)
-  | _ => none
 
 def asBools : List PyVal → Option (List Bool)
   | [] => some []
@@ -47,113 +21,105 @@ def asStrs : List PyVal → Option (List String)
   | .str s :: xs => (asStrs xs).map (s :: ·)
   | _ => none
 
-/-- A column reference is an index or a name (resolved to its first occurrence). -/
-def resolveCols (names : List String) : List PyVal → Option (Except String (List Int))
-  | [] => some (.ok [])
-  | .int i :: xs => (resolveCols names xs).map fun r => r.map (i :: ·)
-  | .str s :: xs =>
-    match indexOf names s with
-    | some i => (resolveCols names xs).map fun r => r.map ((i : Int) :: ·)
-    | none => some (.error "ValueError")
+def asNat : Int → Option Nat
+  | .ofNat n => some n
   | _ => none
 
-def step (rs : List Res) : PyVal → Option Res
-  | .list [.str "head", .int s, .int k] => do
-    let f ← getFrame rs s
-    if k < 0 then none
-    pure (.frame { f with rows := head f.rows k.toNat })
-  | .list [.str "tail", .int s, .int k] => do
-    let f ← getFrame rs s
-    if k < 0 then none
-    pure (.frame { f with rows := tail f.rows k.toNat })
-  | .list [.str "slice", .int s, .int o, .none] => do
-    let f ← getFrame rs s
-    pure (.frame { f with rows := slice f.rows o none })
-  | .list [.str "slice", .int s, .int o, .int l] => do
-    let f ← getFrame rs s
-    if l < 0 then none
-    pure (.frame { f with rows := slice f.rows o (some l.toNat) })
-  | .list [.str "filter", .int s, .list m] => do
-    let f ← getFrame rs s
-    let m ← asBools m
-    pure (.frame { f with rows := filter f.rows m })
-  | .list [.str "take", .int s, .list ix] => do
-    let f ← getFrame rs s
-    let ix ← asInts ix
-    pure (.frame { f with rows := take f.rows ix })
-  | .list [.str "query", .int s, p] => do
-    let f ← getFrame rs s
-    let p ← decodePred p
-    pure (.frame { f with rows := query f.rows p })
-  | .list [.str "select", .int s, .list attrs] => do
-    let f ← getFrame rs s
-    let attrs ← asStrs attrs
-    let (h, rows) := select f.names f.rows attrs
-    pure (.frame { names := h, typed := false, rows := rows })
-  | .list [.str "distinct", .int s] => do
-    let f ← getFrame rs s
-    pure (.frame { f with rows := distinct f.rows })
-  | .list [.str "add", .int s, .int t] => do
-    let f ← getFrame rs s
-    let g ← getFrame rs t
-    if f.names = g.names ∧ f.typed = g.typed then pure (.frame { f with rows := f.rows ++ g.rows })
-    else pure (.err "ValueError")
+def decodePred : PyVal → Option (Pred PyVal)
+  | .list [.str "true"] => some .tt
+  | .list [.str "false"] => some .ff
+  | .list [.str "eq", .int j, v] => (asNat j).map fun j => .eq j v
+  | .list [.str "ne", .int j, v] => (asNat j).map fun j => .ne j v
+  | _ => none
+
+def decodeCols : List PyVal → Option (List ColRef)
+  | [] => some []
+  | .int i :: xs => (decodeCols xs).map (.idx i :: ·)
+  | .str s :: xs => (decodeCols xs).map (.name s :: ·)
+  | _ => none
+
+def decodeKind : String → Option Kind
+  | "list" => some .list
+  | "tuple" => some .tuple
+  | "typed" => some .typed
+  | _ => none
+
+def encodeKind : Kind → String
+  | .list => "list"
+  | .tuple => "tuple"
+  | .typed => "typed"
+
+def decodeOp : PyVal → Option (Op PyVal)
+  | .list [.str "head", .int s, .int k] => do pure (.un (.head (← asNat k)) (← asNat s))
+  | .list [.str "tail", .int s, .int k] => do pure (.un (.tail (← asNat k)) (← asNat s))
+  | .list [.str "slice", .int s, .int o, .none] => do pure (.un (.slice o none) (← asNat s))
+  | .list [.str "slice", .int s, .int o, .int l] => do pure (.un (.slice o (some (← asNat l))) (← asNat s))
+  | .list [.str "filter", .int s, .list m] => do pure (.un (.filter (← asBools m)) (← asNat s))
+  | .list [.str "take", .int s, .list ix] => do pure (.un (.take (← asInts ix)) (← asNat s))
+  | .list [.str "query", .int s, p] => do pure (.un (.query (← decodePred p)) (← asNat s))
+  | .list [.str "select", .int s, .list attrs] => do pure (.un (.select (← asStrs attrs)) (← asNat s))
+  | .list [.str "distinct", .int s] => do pure (.un .distinct (← asNat s))
   | .list [.str "batches", .int s, .int size] => do
-    let f ← getFrame rs s
     if size < 1 then none
-    pure (.val (.list ((batches f.rows size.toNat).map fun b => .list (b.map .list))))
-  | .list [.str "collect", .int s, .list cols, limit] => do
-    let f ← getFrame rs s
-    let lim ← match limit with
-      | .none => some none
-      | .int l => some (some l)
-      | _ => none
-    match ← resolveCols f.names cols with
-    | .error c => pure (.err c)
-    | .ok cols =>
-      if f.rows.isEmpty ∨ cols.isEmpty then
-        pure (.val (.list (cols.map fun _ => .list [])))
-      else if cols.any (fun c => c < 0 ∨ c ≥ f.names.length) then pure (.err "IndexError")
-      else
-        match collect f.rows (cols.map Int.toNat) lim with
-        | some m => pure (.val (.list (m.map .list)))
-        | none => pure (.err "IndexError")
-  | .list [.str "row", .int s, .int i] => do
-    let f ← getFrame rs s
-    let n : Int := f.rows.length
-    let j := if i < 0 then n + i else i
-    if j < 0 ∨ j ≥ n then pure (.err "IndexError")
-    else match f.rows[j.toNat]? with
-      | some r => pure (.val (.list r))
-      | none => pure (.err "IndexError")
-  | .list [.str "len", .int s] => do
-    let f ← getFrame rs s
-    pure (.val (.int f.rows.length))
+    pure (.un (.batches (← asNat size)) (← asNat s))
+  | .list [.str "collect", .int s, .list cols, .none] => do pure (.un (.collect (← decodeCols cols) none) (← asNat s))
+  | .list [.str "collect", .int s, .list cols, .int l] => do pure (.un (.collect (← decodeCols cols) (some l)) (← asNat s))
+  | .list [.str "row", .int s, .int i] => do pure (.un (.row i) (← asNat s))
+  | .list [.str "len", .int s, .int how] => do pure (.un (.len (← asNat how)) (← asNat s))
+  | .list [.str "hash", .int s] => do pure (.un .hash (← asNat s))
+  | .list [.str "add", .int s, .int t] => do pure (.add (← asNat s) (← asNat t))
+  | .list [.str "append", .int s, .list row] => do pure (.append (← asNat s) row)
+  | .list [.str "iter", .int s] => do pure (.iter (← asNat s))
+  | .list [.str "next", .int it, .int k] => do pure (.next (← asNat it) (← asNat k))
+  | .list [.str "zip", .int s, .int t] => do pure (.zip (← asNat s) (← asNat t))
   | _ => none
 
-/-- `append(row)` mutates one frame in place: only that register changes. -/
-def appendAt (rs : List Res) (s : Int) (row : List PyVal) : Option (List Res) := do
-  let f ← getFrame rs s
-  pure (rs.set s.toNat (.frame { f with rows := f.rows ++ [row] }))
+def encodeVal : Val PyVal → PyVal
+  | .none => .none
+  | .nat n => .int n
+  | .row r => .list r
+  | .table t => .list (t.map .list)
+  | .batches bs => .list (bs.map fun b => .list (b.map .list))
+  | .pairs ps => .list (ps.map fun p => .list [.list p.1, .list p.2])
 
-def evalProg (rs : List Res) : List PyVal → Option (List Res)
-  | [] => some rs
-  | .list [.str "append", .int s, .list row] :: ops => do
-    let rs' ← appendAt rs s row
-    evalProg (rs' ++ [.val .none]) ops
-  | op :: ops => do
-    let r ← step rs op
-    evalProg (rs ++ [r]) ops
+def encodeS : SReg PyVal → PyVal
+  | .frame sch rows => .list [.str "frame", .list (sch.names.map .str), .str (encodeKind sch.kind), .list (rows.map .list)]
+  | .val v => .list [.str "val", encodeVal v]
+  | .err c => .list [.str "err", .str c]
+  | .iter _ pos => .list [.str "iter", .int pos]
+
+def encodeI : IReg PyVal → PyVal
+  | .frame _ l _ => .list [.str "frame", .bool l]
+  | .spent => .list [.str "spent"]
+  | .giter _ => .list [.str "giter"]
+  | _ => .list [.str "other"]
+
+def decodeCols' (names : List String) : List PyVal → Option (List Col)
+  | [] => if names.isEmpty then some [] else none
+  | .list al :: xs =>
+    match names with
+    | [] => none
+    | n :: ns => do
+      let al ← asStrs al
+      let rest ← decodeCols' ns xs
+      pure (⟨n, al⟩ :: rest)
+  | _ => none
 
 def handle (op : String) (args : List PyVal) : Option (List PyVal) :=
   match op, args with
-  | "prog", [.list names, .bool typed, .list rows, .list ops] => do
+  | "prog", [.list names, .str kind, .list aliases, .bool lazy, .list rows, .list ops] => do
     let names ← asStrs names
+    let kind ← decodeKind kind
+    let cols ← decodeCols' names aliases
     let rows ← rows.mapM fun r => match r with
       | .list xs => some xs
       | _ => none
-    let rs ← evalProg [.frame { names := names, typed := typed, rows := rows }] ops
-    pure [.list (rs.map encodeRes)]
+    let ops ← ops.mapM decodeOp
+    let sch : Schema := ⟨kind, cols⟩
+    let sp ← specEval [.frame sch rows] ops
+    -- the machine stops (`none`) when a program uses a spent frame: reported as an empty register file
+    let im := (implEval [.frame sch lazy rows] ops).getD []
+    pure [.list (sp.map encodeS), .list (im.map encodeI), .bool (wfProgB [.frame sch lazy rows] ops)]
   | _, _ => none
 
 end Drv.C03
